@@ -259,3 +259,132 @@ class FakeAsyncioTransport(asyncio.Transport):
 
     def sent(self) -> bytes:
         return b"".join(self.wire)
+
+
+# --------------------------------------------------------------------------------------------------
+# in-memory AsyncStreamTransport
+
+from easynetwork.lowlevel.api_async.transports.abc import AsyncStreamTransport  # noqa: E402
+
+
+class MemStreamTransport(AsyncStreamTransport):
+    """In-memory stream transport.  Read side: `incoming` bytes become available when the harness calls feed(k);
+    recv/recv_into return 1..min(room, available) bytes (amount decided by `decide`), b""/0 once EOF was fed and everything
+    was consumed, and otherwise suspend on a future until the harness feeds more (only possible on a running loop).
+    Write side: send_all suspends `send_suspensions()` loop iterations, then records the data; may raise a scripted error.
+    aclose() marks the transport closed even if it is scripted to raise or to suspend."""
+
+    def __init__(self, be, incoming=b"", *, available=None, eof=False, decide=None, loop=None, eof_once=False):
+        self._be = be
+        self.incoming = incoming
+        self.rpos = 0
+        self.available = len(incoming) if available is None else available
+        self.eof = eof
+        self.decide = decide or (lambda m: m)
+        self.loop = loop
+        self.waiter = None
+        self.sent = []
+        self.closed = False
+        self.close_calls = 0
+        self.send_suspensions = lambda: 0
+        self.send_error = None
+        self.close_error = None
+        self.close_suspensions = 0
+        self.recv_calls = 0
+        self.eof_sent = False
+        self.eof_once = eof_once
+        self.eof_returned = False
+
+    # -- harness side ------------------------------------------------------------------------------
+    def feed(self, k):
+        self.available = min(len(self.incoming), self.available + k)
+        self._wake()
+
+    def feed_eof(self):
+        self.eof = True
+        self._wake()
+
+    def _wake(self):
+        w, self.waiter = self.waiter, None
+        if w is not None and not w.done():
+            w.set_result(None)
+
+    # -- transport API -----------------------------------------------------------------------------
+    async def _wait_readable(self):
+        while self.rpos >= self.available and not (self.eof and not (self.eof_once and self.eof_returned)):
+            if self.closed:
+                raise OSError(9, "closed")
+            if self.loop is None:
+                raise RuntimeError("MemStreamTransport: would block but no loop is running (scenario bug)")
+            self.waiter = self.loop.create_future()
+            try:
+                await self.waiter
+            finally:
+                self.waiter = None
+
+    def _take(self, room):
+        left = self.available - self.rpos
+        if left <= 0:
+            self.eof_returned = True
+            return b""
+        m = left if left < room else room
+        n = self.decide(m)
+        out = self.incoming[self.rpos : self.rpos + n]
+        self.rpos += n
+        return out
+
+    async def recv(self, bufsize):
+        self.recv_calls += 1
+        await self._wait_readable()
+        return self._take(bufsize)
+
+    async def recv_into(self, buffer):
+        self.recv_calls += 1
+        await self._wait_readable()
+        with memoryview(buffer) as view:
+            data = self._take(len(view))
+            n = len(data)
+            view[:n] = data
+            return n
+
+    async def send_all(self, data):
+        data = bytes(data)
+        for _ in range(self.send_suspensions()):
+            await self._be.coro_yield()
+        if self.send_error is not None:
+            raise self.send_error
+        if self.closed:
+            raise OSError(9, "closed")
+        self.sent.append(data)
+
+    async def send_eof(self):
+        self.eof_sent = True
+
+    async def aclose(self):
+        self.close_calls += 1
+        self.closed = True
+        self._wake()
+        for _ in range(self.close_suspensions):
+            await self._be.coro_yield()
+        if self.close_error is not None:
+            raise self.close_error
+
+    def is_closing(self):
+        return self.closed
+
+    def backend(self):
+        return self._be
+
+    @property
+    def extra_attributes(self):
+        return {}
+
+
+def run_coro(coro):
+    """drive a coroutine that must not suspend (in-memory transport with everything available)"""
+    try:
+        coro.send(None)
+    except StopIteration as e:
+        return e.value
+    coro.close()
+    raise RuntimeError("coroutine suspended although nothing can block")
